@@ -759,6 +759,33 @@ def names_battery():
                             break
                 except Exception as e:  # noqa: BLE001
                     bad.append(f"type {tname!r} field {fname!r}: {type(e).__name__}: {e}")
+    # several record types in ONE database whose names are look-alikes for SQL pattern matching ('_' and '%' are LIKE wildcards,
+    # LIKE ignores case) or differ in case only: one table per type name, each with its own rows
+    for names in (("t/axb", "t/a_b"), ("t/a_b", "t/axb"), ("t/abc", "t/a%"), ("t/a%c".replace("%", "_"), "t/abc", "t/a_c"), ("T/Name", "t/name"), ("t/x_", "t/xy", "t/x_y")):
+        n += 1
+        with tempdir() as d:
+            p = os.path.join(d, "m.db")
+            try:
+                valid = []
+                for tn in names:
+                    try:
+                        valid.append((tn, RecordDescriptor(tn, [("varint", "v"), ("string", "tag")])))
+                    except Exception:  # noqa: BLE001 - not a valid type name (e.g. '%'): not part of the claim
+                        pass
+                w = RecordWriter(f"sqlite://{p}?batch_size=3")
+                want = {}
+                for i in range(7):
+                    tn, D = valid[i % len(valid)]
+                    w.write(D(i, tn))
+                    want.setdefault(tn, []).append(i)
+                w.close()
+                got = {}
+                for r in RecordReader(f"sqlite://{p}"):
+                    got.setdefault(r._desc.name, []).append(int(r.v))
+                if got != want:
+                    bad.append(f"types {[t for t, _ in valid]} in one database: read back {got}, written {want}")
+            except Exception as e:  # noqa: BLE001
+                bad.append(f"types {list(names)} in one database: {type(e).__name__}: {e}")
     return {"ok": not bad, "detail": f"{n} name combinations; " + "; ".join(bad[:2]), "cex": {"kw": {"bad": bad[:5]}}}
 
 
@@ -791,7 +818,12 @@ def replay(res):
     if "S2-names" in gid:
         out = names_battery()
         bad = out["cex"]["kw"]["bad"]
-        return {"reproduced": bool(bad), "key": "C18/names/" + (bad[0][:60] if bad else ""), "what": "; ".join(bad[:2])[:700]}
+        case_only = [b for b in bad if b.startswith("types ['T/Name', 't/name']")]
+        if bad and len(case_only) == len(bad):
+            # the recorded finding K7 (type names that differ in case only share one SQLite table); anything else keeps its own key
+            return {"reproduced": True, "key": "C18/names/case-insensitive-table-names", "what": "; ".join(bad[:2])[:700]}
+        other = [b for b in bad if b not in case_only]
+        return {"reproduced": bool(other), "key": "C18/names/" + (other[0][:60] if other else ""), "what": "; ".join(other[:2])[:700]}
     if "O5-table-filter" in gid:
         from flow.record import RecordDescriptor, RecordReader, RecordWriter
 
@@ -838,7 +870,7 @@ def replay(res):
         return {"reproduced": bool(probs), "key": "C18/values", "what": "; ".join(probs)[:600]}
     if "O4-reader" in gid:
         out = names_battery()
-        bad = out["cex"]["kw"]["bad"]
+        bad = [b for b in out["cex"]["kw"]["bad"] if not b.startswith("types ['T/Name', 't/name']")]  # K7 is reported by S2-names
         if bad:
             return {"reproduced": True, "key": "C18/reader/" + bad[0][:60], "what": bad[0][:600]}
         probs, _ = _real_run([0, 0, 0, 0, 0, 4, 4], 2, observe=False)
